@@ -491,7 +491,7 @@ impl Property for C07 {
     }
 
     fn rule() -> &'static str {
-        "one evaluation = one seeded scenario: a real tree whose names are arbitrary valid UTF-8 without '/' and NUL (blanks only, leading '-', newlines, quotes, backslashes, {}, $(), glob characters, multi-byte, up to 250 bytes), a starting point spelled t / ./t / t/, find_main ... -print0 (or -print) writing through a sink that accepts short counts and raises EINTR, then the accepted byte stream fed to xargs_main -0 CMD through a reader that re-cuts it independently (1-byte, odd sizes, whole buffers, EINTR every k-th read), optional -n and failing children; oracle: the stream equals the concatenation over an independent reference walk, and the arguments received over all invocations equal the record list exactly once, in order; a quarter of the runs use -H/-L/-follow, the starting point may have a hostile name or come from -files0-from, and a fifth of the runs use xargs -0 -I{}; distinct = distinct abstract trace; non-trivial = a write/read fault fired or a hostile-name probe hit"
+        "one evaluation = one seeded scenario: a real tree whose names are arbitrary valid UTF-8 without '/' and NUL (blanks only, leading '-', newlines, quotes, backslashes, {}, $(), glob characters, multi-byte, up to 250 bytes), a starting point spelled t / ./t / t/, find_main ... -print0 (or -print) writing through a sink that accepts short counts and raises EINTR, then the accepted byte stream fed to xargs_main -0 CMD through a reader that re-cuts it independently (1-byte, odd sizes, whole buffers, EINTR every k-th read), optional -n and failing children; oracle: the stream equals the concatenation over an independent reference walk, and the arguments received over all invocations equal the record list exactly once, in order; a quarter of the runs use -H/-L/-follow, the starting point may have a hostile name or come from -files0-from, and a fifth of the runs use xargs -0 -I{}; the process environment is a dimension too (variables nobody should listen to such as POSIXLY_CORRECT, TZ with daylight saving, LC_ALL, in a sixth of the runs; descriptor 1 a terminal in a tenth); a slice of the scenarios goes through the real find | xargs pipeline; distinct = distinct abstract trace; non-trivial = a write/read fault fired or a hostile-name probe hit"
     }
 
     fn components() -> Value {
